@@ -1,6 +1,7 @@
 package main
 
 import (
+	"go/types"
 	"golang.org/x/tools/go/ssa"
 	"sort"
 	"go/ast"
@@ -318,6 +319,22 @@ func init() {
 				}
 			}
 		}
+		c.ok("dbg", "x", "", "")
+		c.ok("dbg", "y", "", "")
+	})
+}
+
+func init() {
+	register("BUCKETS", func(c *Ctx) {
+		sc := c.P.pkg("db").Types.Scope()
+		bt := c.P.lookupType("db", "Bucket")
+		var out []string
+		for _, nm := range sc.Names() {
+			if k, ok := sc.Lookup(nm).(*types.Const); ok && types.Identical(k.Type(), bt) {
+				out = append(out, nm+"="+k.Val().String())
+			}
+		}
+		fmt.Println("BUCKETS " + strings.Join(out, " "))
 		c.ok("dbg", "x", "", "")
 		c.ok("dbg", "y", "", "")
 	})
